@@ -4,6 +4,7 @@
 import PcVerif.Model.XmlTree
 import PcVerif.Model.TextWriters
 import PcVerif.Lemmas.ItalicsLemmas
+import PcVerif.Lemmas.VttBalance
 namespace PcVerif.Props.C11
 open PcVerif PcVerif.XmlTree PcVerif.TextW
 
@@ -130,5 +131,21 @@ theorem vtt_tags_mirror (f : Flags) :
     vttTags false f = (closeNames f).flatMap (fun c => ['<', '/', c, '>']) := by
   obtain ⟨i, b, u⟩ := f
   cases i <;> cases b <;> cases u <;> decide
+
+/-- **C11 (every WebVTT cue is balanced).** for a caption whose style nodes are properly nested (`runNodes` accepts them:
+    every closing node closes the innermost open span — flat, non-nesting spans in particular), and whatever the layouts
+    of its text nodes, i.e. however the writer has to split the caption into cues: the cue texts `_group_cues_by_layout`
+    returns are the renderings of token lists in which every closing tag closes the innermost open tag and no tag stays
+    open.  A span that runs across a change of layout is closed in the cue that ends and opened again in the next. -/
+theorem vtt_cues_balanced (nodes : List LNode) (h : runNodes [] nodes = some []) :
+    ∃ cues : List (List Tok × Nat), vttGroups nodes = cues.map (fun g => (render g.1, g.2)) ∧ ∀ g ∈ cues, Balanced g.1 :=
+  ⟨vttGroupsT nodes, groups_render nodes, groupsT_balanced nodes h⟩
+
+/-- non-vacuity, and the shape that was written wrongly before the repair 029aea1: text in layout 1, then an italic
+    span in layout 2 — two cues, `fox<i></i>` and `<i>hi</i>` -/
+example : runNodes [] [.text "fox".toList 1, .style true ⟨true, false, false⟩, .text "hi".toList 2, .style false ⟨true, false, false⟩] = some [] ∧
+    vttGroups [.text "fox".toList 1, .style true ⟨true, false, false⟩, .text "hi".toList 2, .style false ⟨true, false, false⟩]
+      = [("fox<i></i>".toList, 1), ("<i>hi</i>".toList, 2)] := by
+  constructor <;> decide
 
 end PcVerif.Props.C11
